@@ -14,14 +14,26 @@ func removeWhitespace(data string) (string, bool, error) {
 	// The input is walked rune by rune but copied byte by byte: strings.Map would rewrite every
 	// byte that is not valid UTF-8 into U+FFFD, changing data that is no whitespace at all (and
 	// without reporting it as a change).
-	for i := 0; i < len(data); {
-		r, size := utf8.DecodeRuneInString(data[i:])
-		if unicode.IsSpace(r) {
-			return doRemoveWhitespace(data, i), true, nil
+	// Removing a character can bring together the bytes of a multi-byte whitespace character
+	// ("\xc2 \xa0" becomes U+00A0), so the scan is repeated until nothing is left to remove:
+	// the result never contains whitespace and removing whitespace twice changes nothing more.
+	changed := false
+	for {
+		pos := -1
+		for i := 0; i < len(data); {
+			r, size := utf8.DecodeRuneInString(data[i:])
+			if unicode.IsSpace(r) {
+				pos = i
+				break
+			}
+			i += size
 		}
-		i += size
+		if pos < 0 {
+			return data, changed, nil
+		}
+		data = doRemoveWhitespace(data, pos)
+		changed = true
 	}
-	return data, false, nil
 }
 
 func doRemoveWhitespace(data string, pos int) string {
